@@ -15,7 +15,8 @@ EXPLANATION = (
     "exception sources, each with zero expected hits: in-loop list mutation (C03.1), fold-dependent unbound locals "
     "(arg-max/min successors are definitely assigned because the comparison is non-strict against a seed that "
     "cannot beat the first element), constant subscripts [0] dominated by a non-emptiness argument, recursion "
-    "(call graph acyclic), division only by a surviving mass inside a comprehension over the survivors.")
+    "(call graph acyclic), division only by a surviving mass inside a comprehension over the survivors."
+    ' Also: nothing computed by one solve is handed to the next (pre:C10.2).')
 ASSUMPTIONS = ["expected rewards >= 0 and reach probabilities in [0,1] (element domains of the definite-assignment argument)",
                "probabilities of transitions are > 0 (generated games: C11; otherwise an input assumption)"]
 TECHNIQUE = "raise census + guard normal form + fold-aware definite assignment + CFG dominance (ast)"
